@@ -435,7 +435,7 @@ def run_check(pid, tier, seed, replay=None, n_override=None):
         wall_s=round(time.time() - t0, 1), violations=nviol,
     )
     os.makedirs(os.path.join(VERIF, "evidence"), exist_ok=True)
-    if not replay:
+    if not replay and REPO == "/repo" and not os.environ.get("VERIF_NO_EVIDENCE"):
         json.dump(ev, open(os.path.join(VERIF, "evidence", pid + ".json"), "w"), indent=1)
     open(os.path.join(out_root, "log.txt"), "w").write("\n".join(log))
     for l in lines:
